@@ -280,3 +280,489 @@ Proof.
 Qed.
 
 End Assembled.
+(* ------------------------------------------------------------------ *)
+(* Part 2: the reals                                                    *)
+(* ------------------------------------------------------------------ *)
+From Coq Require Import Reals Lra Psatz RealField.
+Local Open Scope R_scope.
+
+Definition Rleb (x y : R) : bool := if Rle_dec x y then true else false.
+Definition Reqb (x y : R) : bool := if Req_EM_T x y then true else false.
+
+(* the model's number interface at the real numbers, with the real sqrt / exp / ln / PI *)
+Definition RK : Fops R :=
+  mkFops R 0 1 Rplus Rmult Rminus Ropp Rdiv Rinv Rleb Reqb PI sqrt exp ln (fun _ _ => 0).
+
+Lemma RK_field : is_field RK.
+Proof. exact Rfield. Qed.
+
+Lemma Rleb_true x y : Rleb x y = true <-> x <= y.
+Proof. unfold Rleb. destruct (Rle_dec x y); split; intros; auto; discriminate. Qed.
+Lemma Rleb_false x y : Rleb x y = false <-> y < x.
+Proof. unfold Rleb. destruct (Rle_dec x y); split; intros; auto; try discriminate; lra. Qed.
+
+(* ---- the minimum ---- *)
+Definition is_min (m : R) (l : list R) : Prop := In m l /\ forall x, In x l -> m <= x.
+
+Lemma is_min_unique m m' l : is_min m l -> is_min m' l -> m = m'.
+Proof. intros [H1 H2] [H3 H4]. apply Rle_antisym; auto. Qed.
+
+Lemma fold_min_spec r : forall x,
+  let m := fold_left (fmin2 RK) r x in
+  (m = x \/ In m r) /\ m <= x /\ forall y, In y r -> m <= y.
+Proof.
+  induction r as [|y r IH]; intros x; cbn [fold_left].
+  - repeat split; auto; try lra. intros y [].
+  - specialize (IH (fmin2 RK x y)). cbv zeta in IH. destruct IH as [A [B C]].
+    set (m := fold_left (fmin2 RK) r (fmin2 RK x y)) in *.
+    assert (D : fmin2 RK x y <= x /\ fmin2 RK x y <= y /\ (fmin2 RK x y = x \/ fmin2 RK x y = y)).
+    { unfold fmin2. cbn [fleb RK]. destruct (Rleb x y) eqn:E.
+      - apply Rleb_true in E. repeat split; auto; lra.
+      - apply Rleb_false in E. repeat split; auto; lra. }
+    destruct D as [D1 [D2 D3]]. cbv zeta. repeat split.
+    + destruct A as [A|A]; [|right; now right].
+      destruct D3 as [D3|D3]; [left|right; left]; congruence.
+    + lra.
+    + intros z [<-|Hz]; [lra|auto].
+Qed.
+
+Lemma fmin_list_is_min l : l <> [] -> is_min (fmin_list RK l) l.
+Proof.
+  destruct l as [|x r]; [congruence|]. intros _. unfold fmin_list.
+  pose proof (fold_min_spec r x) as H. cbv zeta in H. destruct H as [A [B C]].
+  split.
+  - destruct A as [A|A]; [left; now rewrite A|now right].
+  - intros y [<-|Hy]; auto.
+Qed.
+
+(* ---- the decision over the reals ---- *)
+Definition pos_exps (s : shell R) : Prop := s_exps s <> [] /\ forall x, In x (s_exps s) -> 0 < x.
+
+Lemma min_exp_is_min s : pos_exps s -> is_min (min_exp RK s) (s_exps s).
+Proof. intros [H _]. now apply fmin_list_is_min. Qed.
+
+Lemma min_exp_pos s : pos_exps s -> 0 < min_exp RK s.
+Proof. intros H. destruct (min_exp_is_min s H) as [A _]. destruct H as [_ Hp]. now apply Hp. Qed.
+
+Lemma dist2_R sa sb :
+  dist2 RK sa sb = (s_x sb - s_x sa) * (s_x sb - s_x sa) + (s_y sb - s_y sa) * (s_y sb - s_y sa)
+                   + (s_z sb - s_z sa) * (s_z sb - s_z sa).
+Proof. reflexivity. Qed.
+
+Lemma cutoff2_R tol sa sb :
+  cutoff2 RK tol sa sb
+  = - (min_exp RK sa + min_exp RK sb) / (min_exp RK sa * min_exp RK sb) * ln tol.
+Proof. reflexivity. Qed.
+
+Lemma dist2_nonneg sa sb : 0 <= dist2 RK sa sb.
+Proof.
+  rewrite dist2_R. generalize (s_x sb - s_x sa) (s_y sb - s_y sa) (s_z sb - s_z sa). intros a b c. nra.
+Qed.
+
+Lemma is_screened_R tol sa sb :
+  is_screened RK (Some tol) sa sb = true
+  <-> 0 < tol /\ 0 <= cutoff2 RK tol sa sb /\ cutoff2 RK tol sa sb < dist2 RK sa sb.
+Proof.
+  unfold is_screened. cbn [fleb RK f0].
+  destruct (Rleb tol 0) eqn:E1.
+  { apply Rleb_true in E1. split; [discriminate|]. intros [H _]. lra. }
+  apply Rleb_false in E1.
+  destruct (Rleb 0 (cutoff2 RK tol sa sb)) eqn:E2.
+  - apply Rleb_true in E2. destruct (Rleb (dist2 RK sa sb) (cutoff2 RK tol sa sb)) eqn:E3; cbn [negb].
+    + apply Rleb_true in E3. split; [discriminate|]. intros [_ [_ H]]. lra.
+    + apply Rleb_false in E3. split; auto.
+  - apply Rleb_false in E2. split; [discriminate|]. intros [_ [H _]]. lra.
+Qed.
+
+Lemma coef_pos a b : 0 < a -> 0 < b -> 0 < (a + b) / (a * b).
+Proof. intros Ha Hb. apply Rdiv_lt_0_compat; nra. Qed.
+
+Lemma neg_coef a b x : - (a + b) / (a * b) * x = (a + b) / (a * b) * - x.
+Proof. unfold Rdiv. ring. Qed.
+
+Lemma ln_le' x y : 0 < x -> x <= y -> ln x <= ln y.
+Proof. intros Hx [H| ->]; [left; now apply ln_increasing|right; reflexivity]. Qed.
+
+Lemma ln_nonpos t : 0 < t -> t <= 1 -> ln t <= 0.
+Proof. intros H0 H1. rewrite <- ln_1. now apply ln_le'. Qed.
+
+Lemma cutoff2_nonneg tol sa sb :
+  pos_exps sa -> pos_exps sb -> 0 < tol <= 1 -> 0 <= cutoff2 RK tol sa sb.
+Proof.
+  intros Ha Hb [H0 H1]. rewrite cutoff2_R, neg_coef.
+  pose proof (coef_pos _ _ (min_exp_pos sa Ha) (min_exp_pos sb Hb)).
+  pose proof (ln_nonpos tol H0 H1). nra.
+Qed.
+
+(* the squared comparison of the model is the documented comparison
+   |R_b - R_a| > sqrt(-(a+b)/(ab) ln tol)   (overlap.py:217-218) for every tolerance in (0, 1] *)
+Theorem screened_iff_documented tol sa sb :
+  pos_exps sa -> pos_exps sb -> 0 < tol <= 1 ->
+  (is_screened RK (Some tol) sa sb = true
+   <-> sqrt (dist2 RK sa sb)
+       > sqrt (- (min_exp RK sa + min_exp RK sb) / (min_exp RK sa * min_exp RK sb) * ln tol)).
+Proof.
+  intros Ha Hb Ht. rewrite <- cutoff2_R. pose proof (cutoff2_nonneg tol sa sb Ha Hb Ht) as Hc.
+  rewrite is_screened_R. split.
+  - intros [_ [_ H]]. apply sqrt_lt_1_alt. lra.
+  - intros H. repeat split; [lra|exact Hc|]. apply sqrt_lt_0_alt. exact H.
+Qed.
+
+(* tolerances above 1: the radicand is negative, the code's comparison with nan is False *)
+Lemma tol_above_one_not_screened tol sa sb :
+  pos_exps sa -> pos_exps sb -> 1 < tol -> is_screened RK (Some tol) sa sb = false.
+Proof.
+  intros Ha Hb Ht. destruct (is_screened RK (Some tol) sa sb) eqn:E; [|reflexivity].
+  apply is_screened_R in E. destruct E as [_ [E _]]. rewrite cutoff2_R, neg_coef in E.
+  pose proof (coef_pos _ _ (min_exp_pos sa Ha) (min_exp_pos sb Hb)).
+  assert (0 < ln tol) by (rewrite <- ln_1; apply ln_increasing; lra). nra.
+Qed.
+
+(* lowering the tolerance never removes more blocks *)
+Theorem screen_monotone tol1 tol2 sa sb :
+  pos_exps sa -> pos_exps sb -> 0 < tol1 -> tol1 <= tol2 -> tol2 <= 1 ->
+  is_screened RK (Some tol1) sa sb = true -> is_screened RK (Some tol2) sa sb = true.
+Proof.
+  intros Ha Hb H0 H12 H1 H. apply is_screened_R in H. apply is_screened_R.
+  destruct H as [_ [Hc Hd]].
+  assert (Ht2 : 0 < tol2 <= 1) by lra.
+  repeat split; [lra|now apply cutoff2_nonneg|].
+  rewrite cutoff2_R, neg_coef in *.
+  pose proof (coef_pos _ _ (min_exp_pos sa Ha) (min_exp_pos sb Hb)).
+  pose proof (ln_le' tol1 tol2 H0 H12). nra.
+Qed.
+
+(* the decision depends on the exponents only through the two minima *)
+Theorem cutoff_uses_min_exponents tol sa sb sa' sb' ma mb :
+  is_min ma (s_exps sa) -> is_min ma (s_exps sa') ->
+  is_min mb (s_exps sb) -> is_min mb (s_exps sb') ->
+  s_x sa = s_x sa' -> s_y sa = s_y sa' -> s_z sa = s_z sa' ->
+  s_x sb = s_x sb' -> s_y sb = s_y sb' -> s_z sb = s_z sb' ->
+  is_screened RK tol sa sb = is_screened RK tol sa' sb'.
+Proof.
+  intros A A' B B' X1 X2 X3 Y1 Y2 Y3.
+  assert (Ne : forall m l, is_min m l -> l <> []) by (intros m l [Hin _] ->; exact Hin).
+  assert (Ea : min_exp RK sa = min_exp RK sa').
+  { unfold min_exp. rewrite (is_min_unique _ _ _ (fmin_list_is_min _ (Ne _ _ A)) A).
+    now rewrite (is_min_unique _ _ _ (fmin_list_is_min _ (Ne _ _ A')) A'). }
+  assert (Eb : min_exp RK sb = min_exp RK sb').
+  { unfold min_exp. rewrite (is_min_unique _ _ _ (fmin_list_is_min _ (Ne _ _ B)) B).
+    now rewrite (is_min_unique _ _ _ (fmin_list_is_min _ (Ne _ _ B')) B'). }
+  destruct tol as [t|]; [|reflexivity].
+  unfold is_screened, cutoff2, dist2. now rewrite Ea, Eb, X1, X2, X3, Y1, Y2, Y3.
+Qed.
+
+(* ... and the minimum is the smallest exponent: with the explicit formula *)
+Theorem screened_explicit tol sa sb ma mb :
+  is_min ma (s_exps sa) -> is_min mb (s_exps sb) ->
+  (is_screened RK (Some tol) sa sb = true
+   <-> 0 < tol /\ 0 <= - (ma + mb) / (ma * mb) * ln tol
+       /\ - (ma + mb) / (ma * mb) * ln tol < dist2 RK sa sb).
+Proof.
+  intros A B.
+  assert (Ne : forall m l, is_min m l -> l <> []) by (intros m l [Hin _] ->; exact Hin).
+  rewrite is_screened_R, cutoff2_R. unfold min_exp.
+  rewrite (is_min_unique _ _ _ (fmin_list_is_min _ (Ne _ _ A)) A).
+  rewrite (is_min_unique _ _ _ (fmin_list_is_min _ (Ne _ _ B)) B). reflexivity.
+Qed.
+
+Lemma is_min_replace m x y l1 l2 :
+  In m (l1 ++ l2) -> is_min m (l1 ++ x :: l2) -> m <= y -> is_min m (l1 ++ y :: l2).
+Proof.
+  intros Hin [_ Hle] Hy. split.
+  - apply in_app_iff in Hin. apply in_app_iff. destruct Hin; [now left|right; now right].
+  - intros z Hz. apply in_app_iff in Hz. destruct Hz as [Hz|[<-|Hz]]; [|exact Hy|].
+    + apply Hle. apply in_app_iff. now left.
+    + apply Hle. apply in_app_iff. right. now right.
+Qed.
+
+(* ---- the conservative bound for s shells ---- *)
+(* reduced exponent of a primitive pair, and the overlap of two NORMALISED s primitives with
+   exponents a, b at squared distance d2:  (2 sqrt(ab)/(a+b))^(3/2) exp(-mu d2)  *)
+Definition mu (a b : R) : R := a * b / (a + b).
+Definition pref (a b : R) : R := let y := 2 * sqrt (a * b) / (a + b) in y * sqrt y.
+Definition sprim (a b d2 : R) : R := pref a b * exp (- (mu a b * d2)).
+
+(* contraction: lists of (coefficient, exponent); na, nb are the contraction norms *)
+Definition rsum (l : list R) : R := fold_right Rplus 0 l.
+Definition dsum (la lb : list (R * R)) (s : R -> R -> R) : R :=
+  rsum (map (fun ca => rsum (map (fun cb => fst ca * fst cb * s (snd ca) (snd cb)) lb)) la).
+Definition S_contr (na nb : R) (la lb : list (R * R)) (d2 : R) : R :=
+  na * nb * dsum la lb (fun a b => sprim a b d2).
+Definition abs_sum (l : list (R * R)) : R := rsum (map (fun c => Rabs (fst c)) l).
+
+Lemma mu_mono a b a' b' : 0 < a -> 0 < b -> a <= a' -> b <= b' -> mu a b <= mu a' b'.
+Proof.
+  intros Ha Hb Haa Hbb. unfold mu.
+  apply Rmult_le_reg_r with ((a + b) * (a' + b')); [nra|].
+  replace (a * b / (a + b) * ((a + b) * (a' + b'))) with (a * b * (a' + b')) by (field; lra).
+  replace (a' * b' / (a' + b') * ((a + b) * (a' + b'))) with (a' * b' * (a + b)) by (field; lra).
+  assert (0 <= a * a' * (b' - b)) by (apply Rmult_le_pos; nra).
+  assert (0 <= b * b' * (a' - a)) by (apply Rmult_le_pos; nra).
+  nra.
+Qed.
+
+Lemma mu_pos a b : 0 < a -> 0 < b -> 0 < mu a b.
+Proof. intros. unfold mu. apply Rdiv_lt_0_compat; nra. Qed.
+
+Lemma mu_inv a b : 0 < a -> 0 < b -> (a + b) / (a * b) = / mu a b.
+Proof. intros. unfold mu. field. repeat split; lra. Qed.
+
+(* arithmetic-geometric mean: 2 sqrt(ab) <= a + b *)
+Lemma amgm a b : 0 < a -> 0 < b -> 2 * sqrt (a * b) <= a + b.
+Proof.
+  intros Ha Hb. rewrite sqrt_mult by lra.
+  pose proof (sqrt_sqrt a ltac:(lra)). pose proof (sqrt_sqrt b ltac:(lra)).
+  pose proof (sqrt_pos a). pose proof (sqrt_pos b).
+  pose proof (Rle_0_sqr (sqrt a - sqrt b)) as Hsq. unfold Rsqr in Hsq. nra.
+Qed.
+
+Lemma pref_bounds a b : 0 < a -> 0 < b -> 0 <= pref a b <= 1.
+Proof.
+  intros Ha Hb. unfold pref. cbv zeta.
+  set (y := 2 * sqrt (a * b) / (a + b)).
+  assert (Hy0 : 0 <= y).
+  { unfold y. apply Rmult_le_pos; [pose proof (sqrt_pos (a * b)); lra|].
+    left. apply Rinv_0_lt_compat. lra. }
+  assert (Hy1 : y <= 1).
+  { unfold y. apply Rmult_le_reg_r with (a + b); [lra|].
+    replace (2 * sqrt (a * b) / (a + b) * (a + b)) with (2 * sqrt (a * b)) by (field; lra).
+    pose proof (amgm a b Ha Hb). lra. }
+  pose proof (sqrt_pos y).
+  assert (sqrt y <= 1) by (rewrite <- sqrt_1; apply sqrt_le_1_alt; exact Hy1).
+  split; nra.
+Qed.
+
+Lemma exp_le' x y : x <= y -> exp x <= exp y.
+Proof. intros [H| ->]; [left; now apply exp_increasing|right; reflexivity]. Qed.
+
+(* every primitive pair of two screened s shells overlaps by at most E = exp(-mu_min d2) < tol *)
+Lemma sprim_bound a b ma mb d2 :
+  0 < ma -> 0 < mb -> ma <= a -> mb <= b -> 0 <= d2 ->
+  0 <= sprim a b d2 <= exp (- (mu ma mb * d2)).
+Proof.
+  intros Hma Hmb Ha Hb Hd. unfold sprim.
+  pose proof (pref_bounds a b ltac:(lra) ltac:(lra)) as [P0 P1].
+  pose proof (exp_pos (- (mu a b * d2))) as E0.
+  assert (E1 : exp (- (mu a b * d2)) <= exp (- (mu ma mb * d2))).
+  { apply exp_le'. pose proof (mu_mono ma mb a b Hma Hmb Ha Hb). nra. }
+  split; [nra|]. pose proof (exp_pos (- (mu ma mb * d2))). nra.
+Qed.
+
+Lemma cutoff_exp_lt tol ma mb d2 :
+  0 < ma -> 0 < mb -> 0 < tol ->
+  - (ma + mb) / (ma * mb) * ln tol < d2 -> exp (- (mu ma mb * d2)) < tol.
+Proof.
+  intros Hma Hmb Ht H. rewrite neg_coef, mu_inv in H by assumption.
+  pose proof (mu_pos ma mb Hma Hmb) as Hm.
+  rewrite <- (exp_ln tol Ht). apply exp_increasing.
+  assert (mu ma mb * (/ mu ma mb * - ln tol) < mu ma mb * d2) by (apply Rmult_lt_compat_l; assumption).
+  rewrite <- Rmult_assoc, Rinv_r, Rmult_1_l in H0 by lra. lra.
+Qed.
+
+(* |sum_ij c_i c_j s_ij| <= E * sum|c_i| * sum|c_j| when |s_ij| <= E *)
+Lemma inner_bound (c E : R) (lb : list (R * R)) (s : R -> R) :
+  0 <= E -> (forall cb, In cb lb -> Rabs (s (snd cb)) <= E) ->
+  Rabs (rsum (map (fun cb => c * fst cb * s (snd cb)) lb)) <= Rabs c * E * abs_sum lb.
+Proof.
+  intros HE. unfold abs_sum. induction lb as [|[cb b] lb IH]; intros H; cbn [map rsum fold_right fst snd].
+  - rewrite Rabs_R0. lra.
+  - eapply Rle_trans; [apply Rabs_triang|].
+    assert (H1 : Rabs (c * cb * s b) <= Rabs c * E * Rabs cb).
+    { rewrite !Rabs_mult. pose proof (H (cb, b) (or_introl eq_refl)) as Hs. cbn [snd] in Hs.
+      pose proof (Rabs_pos c). pose proof (Rabs_pos cb). pose proof (Rabs_pos (s b)).
+      assert (0 <= Rabs c * Rabs cb) by nra. nra. }
+    assert (H2 := IH (fun x Hx => H x (or_intror Hx))).
+    unfold rsum in *. lra.
+Qed.
+
+Lemma dsum_bound (E : R) (la lb : list (R * R)) (s : R -> R -> R) :
+  0 <= E -> (forall ca cb, In ca la -> In cb lb -> Rabs (s (snd ca) (snd cb)) <= E) ->
+  Rabs (dsum la lb s) <= E * abs_sum la * abs_sum lb.
+Proof.
+  intros HE. unfold dsum. induction la as [|[ca a] la IH]; intros H; cbn [map rsum fold_right fst snd].
+  - rewrite Rabs_R0. unfold abs_sum. cbn. lra.
+  - eapply Rle_trans; [apply Rabs_triang|].
+    pose proof (inner_bound ca E lb (s a) HE (fun cb Hcb => H (ca, a) cb (or_introl eq_refl) Hcb)) as H1.
+    assert (H2 := IH (fun x y Hx Hy => H x y (or_intror Hx) Hy)).
+    unfold abs_sum in *. cbn [map rsum fold_right fst snd]. unfold rsum in *. nra.
+Qed.
+
+Lemma abs_sum_nonneg l : 0 <= abs_sum l.
+Proof.
+  unfold abs_sum. induction l as [|c l IH]; cbn [map rsum fold_right]; [lra|].
+  pose proof (Rabs_pos (fst c)). unfold rsum in *. lra.
+Qed.
+
+(* Two s shells given by (coefficient, exponent) lists with contraction norms na, nb, whose pair is
+   removed at tolerance tol (d2 beyond the squared cutoff of their SMALLEST exponents): the removed
+   element is below tol times the sums of the normalised absolute contraction coefficients. *)
+Theorem removed_s_bound (la lb : list (R * R)) (na nb tol d2 ma mb : R) :
+  (forall ca, In ca la -> 0 < snd ca) -> (forall cb, In cb lb -> 0 < snd cb) ->
+  is_min ma (map snd la) -> is_min mb (map snd lb) ->
+  0 < tol <= 1 -> 0 <= na -> 0 <= nb ->
+  - (ma + mb) / (ma * mb) * ln tol < d2 ->
+  Rabs (S_contr na nb la lb d2) <= tol * (na * abs_sum la) * (nb * abs_sum lb)
+  /\ (0 < na * abs_sum la -> 0 < nb * abs_sum lb ->
+      Rabs (S_contr na nb la lb d2) < tol * (na * abs_sum la) * (nb * abs_sum lb)).
+Proof.
+  intros Pa Pb [Ia La] [Ib Lb] [Ht0 Ht1] Hna Hnb Hd.
+  assert (Hma : 0 < ma).
+  { apply in_map_iff in Ia. destruct Ia as [x [<- Hx]]. now apply Pa. }
+  assert (Hmb : 0 < mb).
+  { apply in_map_iff in Ib. destruct Ib as [x [<- Hx]]. now apply Pb. }
+  assert (Hd0 : 0 <= d2).
+  { rewrite neg_coef in Hd. pose proof (coef_pos ma mb Hma Hmb). pose proof (ln_nonpos tol Ht0 Ht1). nra. }
+  set (E := exp (- (mu ma mb * d2))).
+  assert (HE : E < tol) by (apply cutoff_exp_lt; assumption).
+  assert (HE0 : 0 <= E) by (left; apply exp_pos).
+  assert (HS : Rabs (dsum la lb (fun a b => sprim a b d2)) <= E * abs_sum la * abs_sum lb).
+  { apply dsum_bound; [exact HE0|]. intros ca cb Hca Hcb.
+    assert (ma <= snd ca) by (apply La; now apply in_map).
+    assert (mb <= snd cb) by (apply Lb; now apply in_map).
+    pose proof (sprim_bound (snd ca) (snd cb) ma mb d2 Hma Hmb H H0 Hd0) as [S0 S1].
+    rewrite Rabs_pos_eq by exact S0. exact S1. }
+  pose proof (abs_sum_nonneg la) as Aa. pose proof (abs_sum_nonneg lb) as Ab.
+  assert (HX : Rabs (S_contr na nb la lb d2) <= E * ((na * abs_sum la) * (nb * abs_sum lb))).
+  { unfold S_contr. rewrite !Rabs_mult, (Rabs_pos_eq na), (Rabs_pos_eq nb) by assumption.
+    assert (0 <= na * nb) by nra.
+    replace (E * (na * abs_sum la * (nb * abs_sum lb))) with (na * nb * (E * abs_sum la * abs_sum lb)) by ring.
+    apply Rmult_le_compat_l; assumption. }
+  assert (0 <= na * abs_sum la) by nra. assert (0 <= nb * abs_sum lb) by nra.
+  split.
+  - assert (0 <= (na * abs_sum la) * (nb * abs_sum lb)) by nra. nra.
+  - intros Xa Xb. assert (0 < (na * abs_sum la) * (nb * abs_sum lb)) by nra. nra.
+Qed.
+
+(* the same bound tied to the model's decision function: a pair of shells removed by [is_screened] *)
+Lemma map_snd_combine {A B} (la : list A) (lb : list B) :
+  length la = length lb -> map snd (combine la lb) = lb.
+Proof.
+  revert lb; induction la as [|a la IH]; intros [|b lb] H; cbn in *; try congruence. f_equal. apply IH. lia.
+Qed.
+
+Theorem removed_s_bound_model (sa sb : shell R) (ca cb : list R) (na nb tol : R) :
+  pos_exps sa -> pos_exps sb -> length ca = length (s_exps sa) -> length cb = length (s_exps sb) ->
+  0 < tol <= 1 -> 0 <= na -> 0 <= nb ->
+  is_screened RK (Some tol) sa sb = true ->
+  let la := combine ca (s_exps sa) in let lb := combine cb (s_exps sb) in
+  Rabs (S_contr na nb la lb (dist2 RK sa sb)) <= tol * (na * abs_sum la) * (nb * abs_sum lb)
+  /\ (0 < na * abs_sum la -> 0 < nb * abs_sum lb ->
+      Rabs (S_contr na nb la lb (dist2 RK sa sb)) < tol * (na * abs_sum la) * (nb * abs_sum lb)).
+Proof.
+  intros Pa Pb La Lb Ht Hna Hnb H. cbv zeta.
+  apply is_screened_R in H. destruct H as [_ [_ H]]. rewrite cutoff2_R in H.
+  apply removed_s_bound with (ma := min_exp RK sa) (mb := min_exp RK sb); try assumption.
+  - intros x Hx. apply (proj2 Pa). rewrite <- (map_snd_combine ca (s_exps sa) La). now apply in_map.
+  - intros x Hx. apply (proj2 Pb). rewrite <- (map_snd_combine cb (s_exps sb) Lb). now apply in_map.
+  - rewrite map_snd_combine by exact La. now apply min_exp_is_min.
+  - rewrite map_snd_combine by exact Lb. now apply min_exp_is_min.
+Qed.
+
+(* ---- the abstract primitive overlap [sprim] is what the model computes for two s primitives ---- *)
+Lemma sqrt_y_uvw a b : 0 < a -> 0 < b ->
+  sqrt (2 * sqrt (a * b) / (a + b))
+  = sqrt (sqrt (2 * a / PI)) * sqrt (sqrt (2 * b / PI)) * sqrt (PI / (a + b)).
+Proof.
+  intros Ha Hb. pose proof PI_RGT_0 as Hpi.
+  assert (Hsab : 0 <= sqrt (a * b)) by apply sqrt_pos.
+  apply sqrt_lem_1.
+  - apply Rmult_le_pos; [lra|]. left. apply Rinv_0_lt_compat. lra.
+  - repeat apply Rmult_le_pos; apply sqrt_pos.
+  - set (u := sqrt (sqrt (2 * a / PI))). set (v := sqrt (sqrt (2 * b / PI))). set (w := sqrt (PI / (a + b))).
+    assert (Hu : u * u = sqrt (2 * a / PI)) by (apply sqrt_sqrt, sqrt_pos).
+    assert (Hv : v * v = sqrt (2 * b / PI)) by (apply sqrt_sqrt, sqrt_pos).
+    assert (Hw : w * w = PI / (a + b)).
+    { apply sqrt_sqrt. left. apply Rdiv_lt_0_compat; lra. }
+    replace (u * v * w * (u * v * w)) with ((u * u) * (v * v) * (w * w)) by ring.
+    rewrite Hu, Hv, Hw. rewrite <- sqrt_mult_alt by (left; apply Rdiv_lt_0_compat; lra).
+    replace (2 * a / PI * (2 * b / PI)) with ((2 / PI) * (2 / PI) * (a * b)) by (field; lra).
+    rewrite sqrt_mult_alt by (assert (0 < 2 / PI) by (apply Rdiv_lt_0_compat; lra); nra).
+    rewrite sqrt_square by (left; apply Rdiv_lt_0_compat; lra).
+    field. split; lra.
+Qed.
+
+Theorem sprim_is_model_primitive (a b ax ay az bx by_ bz : R) :
+  0 < a -> 0 < b ->
+  norm_prim RK 0 (0, 0, 0)%nat a * norm_prim RK 0 (0, 0, 0)%nat b
+  * (base RK ax bx a b * base RK ay by_ a b * base RK az bz a b)
+  = sprim a b ((bx - ax) * (bx - ax) + (by_ - ay) * (by_ - ay) + (bz - az) * (bz - az)).
+Proof.
+  intros Ha Hb. unfold norm_prim, pow34, base, hmean, psum, sprim, pref, mu.
+  cbn [fmul fdiv fadd fsub fopp f1 f0 fsqrt fexp fpi RK fpow fdf_odd]. cbv zeta.
+  rewrite (sqrt_y_uvw a b Ha Hb).
+  set (u := sqrt (sqrt ((1 + 1) * a / PI))). set (v := sqrt (sqrt ((1 + 1) * b / PI))).
+  replace (2 * a / PI) with ((1 + 1) * a / PI) by (f_equal; ring).
+  replace (2 * b / PI) with ((1 + 1) * b / PI) by (f_equal; ring).
+  fold u v. set (w := sqrt (PI / (a + b))).
+  assert (Hy : 2 * sqrt (a * b) / (a + b) = (u * v * w) * (u * v * w)).
+  { symmetry. apply sqrt_lem_0.
+    - apply Rmult_le_pos; [pose proof (sqrt_pos (a * b)); lra|]. left. apply Rinv_0_lt_compat. lra.
+    - repeat apply Rmult_le_pos; apply sqrt_pos.
+    - unfold u, v, w. replace ((1 + 1) * a / PI) with (2 * a / PI) by (f_equal; ring).
+      replace ((1 + 1) * b / PI) with (2 * b / PI) by (f_equal; ring). apply sqrt_y_uvw; assumption. }
+  rewrite Hy. rewrite sqrt_1. replace (1 * 1 * 1) with 1 by ring. rewrite sqrt_1.
+  set (m := a * b / (a + b)).
+  replace (exp (- (m * ((bx - ax) * (bx - ax) + (by_ - ay) * (by_ - ay) + (bz - az) * (bz - az)))))
+    with (exp (- (m * ((ax - bx) * (ax - bx)))) * exp (- (m * ((ay - by_) * (ay - by_))))
+          * exp (- (m * ((az - bz) * (az - bz))))).
+  2:{ rewrite <- !exp_plus. f_equal. ring. }
+  field.
+Qed.
+
+(* ---- the hypotheses above are satisfiable (concrete instances) ---- *)
+Definition ex_shell (x : R) : shell R := mkShell R 0 x 0 0 [1] [[1]] false [] [].
+
+Lemma ex_pos x : pos_exps (ex_shell x).
+Proof. split; [discriminate|]. intros y [<-|[]]. lra. Qed.
+
+Lemma ln2_bounds : 0 < ln 2 < 1.
+Proof.
+  split; [rewrite <- ln_1; apply ln_increasing; lra|].
+  rewrite <- (ln_exp 1). apply ln_increasing; [lra|]. pose proof (exp_ineq1 1 ltac:(lra)). lra.
+Qed.
+
+Lemma ex_screened : is_screened RK (Some (/ 2)) (ex_shell 0) (ex_shell 3) = true.
+Proof.
+  apply is_screened_R. rewrite cutoff2_R, dist2_R.
+  change (min_exp RK (ex_shell 0)) with 1. change (min_exp RK (ex_shell 3)) with 1.
+  cbn [s_x s_y s_z ex_shell]. rewrite ln_Rinv by lra. pose proof ln2_bounds.
+  replace (- (1 + 1) / (1 * 1) * - ln 2) with (2 * ln 2) by field. repeat split; lra.
+Qed.
+
+Example screen_monotone_ex :
+  is_screened RK (Some (3 / 4)) (ex_shell 0) (ex_shell 3) = true.
+Proof.
+  apply (screen_monotone (/ 2) (3 / 4)); try apply ex_pos; try lra. exact ex_screened.
+Qed.
+
+Example screened_iff_documented_ex :
+  sqrt (dist2 RK (ex_shell 0) (ex_shell 3))
+  > sqrt (- (min_exp RK (ex_shell 0) + min_exp RK (ex_shell 3))
+          / (min_exp RK (ex_shell 0) * min_exp RK (ex_shell 3)) * ln (/ 2)).
+Proof. apply screened_iff_documented; try apply ex_pos; [lra|exact ex_screened]. Qed.
+
+(* min, not max: a second, larger exponent (or any replacement of it) does not change the decision *)
+Example cutoff_uses_min_exponents_ex (big big' : R) : 1 <= big -> 1 <= big' ->
+  is_screened RK (Some (/ 2)) (mkShell R 0 0 0 0 [1; big] [[1]; [1]] false [] []) (ex_shell 3)
+  = is_screened RK (Some (/ 2)) (mkShell R 0 0 0 0 [1; big'] [[1]; [1]] false [] []) (ex_shell 3).
+Proof.
+  intros H H'. apply (cutoff_uses_min_exponents _ _ _ _ _ 1 1); try reflexivity.
+  - split; [now left|]. intros x [<-|[<-|[]]]; lra.
+  - split; [now left|]. intros x [<-|[<-|[]]]; lra.
+  - split; [now left|]. intros x [<-|[]]; lra.
+  - split; [now left|]. intros x [<-|[]]; lra.
+Qed.
+
+Example removed_s_bound_ex :
+  Rabs (S_contr 1 1 [(1, 1)] [(1, 1)] 9) < / 2 * (1 * abs_sum [(1, 1)]) * (1 * abs_sum [(1, 1)]).
+Proof.
+  assert (A : abs_sum [(1, 1)] = 1) by (unfold abs_sum; cbn; rewrite Rabs_R1; ring).
+  pose proof ln2_bounds.
+  apply (removed_s_bound [(1, 1)] [(1, 1)] 1 1 (/ 2) 9 1 1); try lra.
+  - intros ca [<-|[]]. cbn. lra.
+  - intros ca [<-|[]]. cbn. lra.
+  - split; [now left|]. intros x [<-|[]]; cbn; lra.
+  - split; [now left|]. intros x [<-|[]]; cbn; lra.
+  - rewrite ln_Rinv by lra. replace (- (1 + 1) / (1 * 1) * - ln 2) with (2 * ln 2) by field. lra.
+Qed.
